@@ -38,6 +38,11 @@ unsafe fn setup() -> (u64, [u8; sim::RLEN]) {
 fn x64_core_redirect() {
     unsafe {
         let (f, orig) = setup();
+        // program text is r-x; a code arena / JIT region is rwx before the injector ever sees it
+        let was_writable: bool = kani::any();
+        if was_writable {
+            sim::ENT[0].wr = [true; sim::RLEN];
+        }
         let t: u64 = kani::any();
         kani::assume(t != 0 && t < (1u64 << 63));
         kani::assume(!windows_overlap(t, f));
@@ -53,6 +58,8 @@ fn x64_core_redirect() {
         assert!(c.pc == t && !c.returned, "VERIF[C01]: control does not arrive at the fake");
         // reachability witnesses come before the obligations of other properties (an assert cuts the path)
         kani::cover!(sim::JIT[0].bytes[0] == 0xE9, "COVER: rel32 trampoline form");
+        kani::cover!(was_writable, "COVER: page writable before the installation");
+        kani::cover!(!was_writable, "COVER: page read-only before the installation");
         kani::cover!(sim::JIT[0].bytes[0] == 0x48, "COVER: abs64 trampoline form");
         kani::cover!((f & 4095) > 4096 - 5, "COVER: entry patch straddles a page boundary");
         kani::cover!(f < 0x800_0000, "COVER: target below 128 MiB");
@@ -89,6 +96,15 @@ fn x64_core_redirect() {
         }
         assert!(sim::all_clean(), "VERIF[C17]: restored bytes are not covered by a later flush");
         assert!(sim::live_jits() == 0 && sim::S.N_MUNMAP == 1, "VERIF[C12]: trampoline not released exactly once on drop");
+        // C03: functions that were not named keep running - a page that was writable before the
+        // installation (its other occupants may store to it) is not left without write permission
+        if was_writable {
+            let mut k = 0;
+            while k < sim::RLEN {
+                assert!(sim::ENT[0].wr[k], "VERIF[C03]: a page that was writable before the installation is left read-only after the injector is gone (stores by functions that were not named fault)");
+                k += 1;
+            }
+        }
     }
 }
 
